@@ -56,7 +56,7 @@ impl Prop for C10 {
         ]
     }
     fn cases(&self, tier: Tier) -> u32 {
-        tier.pick(150, 3000)
+        tier.pick(400, 8000)
     }
     fn min_nontrivial(&self, tier: Tier) -> usize {
         tier.pick(150, 1500)
